@@ -74,6 +74,7 @@ def run(F, R, ctx):
     quasiquote_shape_rule(F, R)
     definition_order_rule(F, R)
     arity_elision_rule(F, R)
+    inline_count_rule(F, R)
 
 
 # the walkers whose result decides how an assigned variable is compiled: they must see every sub-expression
@@ -836,3 +837,59 @@ def quasiquote_shape_rule(F, R):
                "the quasiquote macro evaluates (%s x) at the head of a proper list but has no such rule for a dotted list: "
                "`((%s e) . rest)` would be rebuilt with the form unevaluated" % (h, h), where, sample=True)
     R.floor("C01.z", "unquote head cases of the proper-list family", len(heads), 2)
+
+
+def inline_count_rule(F, R):
+    R.rule("C01.i", "a call is replaced by the body of the function it calls only if it passes the number of arguments the "
+                    "function takes: every place in the compiler that overwrites a call's operator (List.args[0]) with a lambda "
+                    "expression taken from a definition (an ExprKind::LambdaFunction aggregate stored into the argument vector "
+                    "of a `&mut List`) is dominated by a branch whose condition is computed from the call's argument list "
+                    "(List.args) and the function's parameter list (LambdaFunction.args) — directly or in a helper both are "
+                    "handed to. nc: after the replacement the later passes bind parameters to operands positionally, so "
+                    "`(define (f a b) …) (define (caller x) (f x 2 3))` answered instead of raising an arity mismatch")
+    n = 0
+    for name, fn in sorted(F.fns.items()):
+        if not name.startswith("steel::compiler::"):
+            continue
+        sites = []
+        for i, b in enumerate(fn.blocks):
+            if b["c"]:
+                continue
+            if any(e[0] == "agg" and e[1] == "ExprKind" and e[2] == "LambdaFunction" for e in b["e"]) and \
+                    any(e[0] == "fld" and e[1] == "List" and e[2] == "args" and "m" in e[3] for e in b["e"]):
+                sites.append(i)
+        if not sites:
+            continue
+        dom = fn.dominators()
+        for i in sites:
+            n += 1
+            ok = False
+            for sb in dom[i]:
+                blk = fn.blocks[sb]
+                if blk["k"] != "switch" or blk["on"] != "bool" or sb == i:
+                    continue
+                sides = [t for t in set(blk["s"]) if t == i or i in fn.reachable_from([t], avoid={sb})]
+                if len(sides) != 1:
+                    continue
+                reads_call = reads_fn = False
+                for b2 in dom[sb]:
+                    cb = fn.blocks[b2]
+                    evs = list(cb["e"])
+                    if cb["k"] == "call" and cb["callee"] in F.fns and cb["callee"].startswith("steel::"):
+                        # a helper that is handed both: look inside (one level)
+                        sig = F.fns[cb["callee"]].d["in"]
+                        if any("List" in t for t in sig) and any("LambdaFunction" in t for t in sig):
+                            evs += [e for _, e in lib.family_events(F, F.fns[cb["callee"]])]
+                    for e in evs:
+                        if e[0] == "fld" and e[1] == "List" and e[2] == "args" and "m" not in e[3]:
+                            reads_call = True
+                        if e[0] == "fld" and e[1] == "LambdaFunction" and e[2] == "args":
+                            reads_fn = True
+                if reads_call and reads_fn:
+                    ok = True
+            R.inst("C01.i", "%s / operator replaced by a lambda only after the counts were compared" % fn.short(), ok,
+                   "%s overwrites the operator of a call with the lambda of the function it names (line %s) and no dominating "
+                   "branch compares the call's argument count with the lambda's parameter count: a call with the wrong number "
+                   "of arguments is inlined, and is then not reported" % (fn.short(), fn.blocks[i].get("line") or fn.d.get("line")),
+                   fn.loc(fn.blocks[i].get("line")), sample=True)
+    R.floor("C01.i", "call-site inlining closures", n, 3)
